@@ -47,9 +47,11 @@ NBINS = 100                                                # number_of_bins of t
 # vector stops the loop); lifetimes amplify this by 1/|d| (3 .. 6).  Measured on the unchanged tree (hundreds of batches of
 # 2-12 points): <= 2e-12 (P_RAM), <= 4e-11 (P_RAJ); the largest values seen by a run are recorded in the evidence
 # (distribution.max_rel_*).  Refined vs base sequences go through identical tables: the same bound is far on the safe side.
-# The Seeger-Beste PRIMARY branch (stress -> strain of the first loading) is solved to rtol 1e-5 only and its values do
-# differ between the vectorised and the single solve (up to 1.1e-6 of the largest strain seen in 1000 batch points): it enters the running strain extremes
-# (TOL_LF = twice the solver's rtol) and, through the crack opening logic only, the P_RAJ lifetime.
+# The Seeger-Beste PRIMARY branch (stress -> strain of the first loading) is solved to rtol 1e-5 only; it enters the running
+# strain extremes (TOL_LF = twice the solver's rtol) and, through the crack opening logic only, the P_RAJ lifetime.  TOL_LF is
+# kept from before the repair b50f603: on that tree the values differed between the vectorised and the single solve (measured
+# deviation then: up to 1.1e-6 of the largest strain seen in 1000 batch points).  Since b50f603 the Seeger-Beste solver is a
+# per-element bisection (no scipy iteration, no dependence on the companion elements); the deviation has not been re-measured.
 TOL_RAM = 1e-8
 TOL_RAJ = 1e-6
 TOL_MONO = 1e-6
@@ -183,7 +185,7 @@ def assess(par, L, cs, Gs, nodes, ram=True, raj=True, scale=1.0, as_batch=None, 
             try:
                 return A.perform_fkm_nonlinear_assessment(p, seq, calculate_P_RAM=ram, calculate_P_RAJ=raj)
             except RuntimeError as e:
-                if "Failed to converge" in str(e):      # scipy.optimize.newton gave up: solver behaviour (C06), not C10
+                if "Failed to converge" in str(e):      # scipy.optimize.newton gave up (extended-Neuber tables, closure-stress Newton): solver behaviour (C06), not C10
                     raise SolverFailure(str(e))
                 raise
 
@@ -209,17 +211,17 @@ def ctx_of(case):
 
 def node_order_desc(case, msg):
     return (f"a batch whose node_id labels are not ascending ({(case.get('lay') or {}).get('ids')}) cannot be assessed: the per-point maxima "
-            f"(fkm_load_sequence.maximum_absolute_load groups and SORTS by node_id) and with them the look-up tables are matched to the "
-            f"points by position: ValueError {msg}; {ctx_of(case)}")
+            f"(before /repo commit 64dfe3b fkm_load_sequence.maximum_absolute_load grouped and SORTED by node_id) and with them the look-up tables "
+            f"are matched to the points by position: ValueError {msg}; {ctx_of(case)}")
 
 
 class NodeOrderDefect(Exception):
-    """the look-up refuses a load because the tables were matched to the wrong points (finding batch-node-order)"""
+    """the look-up refuses a load because the tables were matched to the wrong points (finding batch-node-order, fixed by 64dfe3b)"""
 
 
 def assess_batch(case, *args, **kw):
     """assess() for the batch of a case; the ValueError of the binned look-up for a batch whose node labels are not
-    ascending is the recorded finding batch-node-order"""
+    ascending is the recorded finding batch-node-order (fixed by /repo commit 64dfe3b)"""
     try:
         return assess(*args, lay=case.get("lay"), **kw)
     except ValueError as e:
@@ -551,15 +553,15 @@ class C10(Prop):
             "non-trivial = at least one hysteresis and a finite P_RAM value; distinct by (loads, ratios, material)")
     ASSUMPTIONS = [
         "the model Model/Assessment.lean covers the P_RAM pipeline end to end; the P_RAJ pipeline is modelled from the recorded hysteresis table on (Model/PRAJ.lean, case kind praj); what lies before the table on the P_RAJ side (Seeger-Beste look-up, HCM with that law) is C05/C06/C07 and, for C10, the direct oracle on the real code",
-        "the look-up tables' VALUES (the Newton roots of the extended Neuber law at the class edges) are taken from the real run BY NODE LABEL and sent to the model; their construction is C06/C07; the model associates table k with point k (the behaviour of the repair tools/fixes/C10-node-order.diff; on a tree without it a batch whose node labels are not ascending is the open finding batch-node-order and its batch line is not compared while that finding is open)",
+        "the look-up tables' VALUES (the Newton roots of the extended Neuber law at the class edges) are taken from the real run BY NODE LABEL and sent to the model; their construction is C06/C07; the model associates table k with point k (the behaviour since /repo commit 64dfe3b, which fixed the finding batch-node-order; the finding being fixed, the batch line of every batch is compared, also of a batch whose node labels are not ascending - only while that class had status open was the batch line of such a batch left out)",
         "class selection in the model compares exact rationals, the code compares doubles: correspondence cases avoid loads on class edges whose float value is inexact; the oracle cases (batch vs alone, refine, mono) do not - a third of the batches consists of round loads on class edges (audit C10-5: the batch dependence there is gone since 3047e0d, every point is looked up with its own load in its own table column)",
         "table values are scaled exactly by 2^100 to integers for Model/HCM; sums of table values are exact in the model and rounded in the code (agreement to 1e-9 relative is required)",
         "in the model of a batch the first point's stresses/strains that only steer min/max selections are evaluated with the assessed point's table (only their order matters; table values are positive); beyond the last class edge the model returns the last class value where the code raises (never reached for the point's own loads)",
-        "beta = compute_beta(P_A) (root search) is taken from the real run (C09); loads of correspondence cases are integers with c = 1, P_L = 50 so that the scaled loads are exact",
+        "beta = compute_beta(P_A) (the normal quantile since /repo commit 763ab65; a root search before) is taken from the real run (C09); loads of correspondence cases are integers with c = 1, P_L = 50 so that the scaled loads are exact",
         "scope of 'non-reversal sample' at the head of the sequence: the first pass starts at load 0, so a prepended sample is a non-reversal when it lies between the first sample and BOTH the initial load 0 and the last sample; a value between the last and the first sample only IS a reversal of the first pass and changes the first-pass hystereses (kernel-checked example C10.prepend_between_last_and_first_changes_records)",
         "a load_step label is a label: the history is the row order of the Series (the docstring asks for consecutive labels from 0; increasing labels with other starts / steps and one shuffled labelling are accepted by the code and generated; labels DESCENDING by one are not: the first run shifts its labels by +1, they then collide with labels of the second run and FKMNonlinearRecorder._get_for_every_node, which infers the number of points from runs of equal labels, raises ValueError - outside the documented input, reported, not generated)",
-        "oracle tolerances: batch vs single / refined vs base lifetimes 1e-8 (P_RAM) and 1e-6 (P_RAJ) relative (measured noise of the vectorised Newton tables: lifetimes <= 6e-12 (P_RAM) and <= 4e-11 (P_RAJ), recorded per run in distribution.max_rel_*); monotonicity 1e-6; verdicts compared only when P_max is more than 1e-3 away from the endurance value; running strain extremes batch vs single to 2e-5 of the largest strain of the history (the Seeger-Beste primary branch is solved to rtol 1e-5; up to 1.1e-6 seen); scipy 'Failed to converge' in the Seeger-Beste tables is counted, not judged",
-        "open finding classes are guarded in the oracle: batch-node-order only for a batch whose node labels are not ascending; mono-P_RAM-early-failure-count only across the early-failure boundary with n1 >= n2 + 2 first/second-pass hystereses and an increase <= n1 - n2 cycles (exactly the complement of the theorems' hypothesis Regime); mono-pa-above-half only for P_A > 0.5 compared with exactly 0.5; mono-P_RAJ-rough / -pa only with fewer than 1000 P_RAJ classes, an increase <= 60 % that vanishes (<= 3 %) when the same pair is re-run with 2000 classes; mono-P_RAJ-scale only when the P_RAJ value of one of the (same) hystereses is smaller in the scaled run (crack closure); mono-P_RAJ-scale-classing like -rough with an increase <= 2 %; anything else of the same relation is reported under another class",
+        "oracle tolerances: batch vs single / refined vs base lifetimes 1e-8 (P_RAM) and 1e-6 (P_RAJ) relative (measured noise of the vectorised Newton tables: lifetimes <= 6e-12 (P_RAM) and <= 4e-11 (P_RAJ), recorded per run in distribution.max_rel_*); monotonicity 1e-6; verdicts compared only when P_max is more than 1e-3 away from the endurance value; running strain extremes batch vs single to 2e-5 of the largest strain of the history (the Seeger-Beste primary branch is solved to rtol 1e-5; tolerance kept from before the repair b50f603, measured deviation then 1.1e-6; since b50f603 the Seeger-Beste solver is a per-element bisection without scipy and without dependence on companion elements, not re-measured); scipy 'Failed to converge' (scipy.optimize.newton: the extended-Neuber tables and the closure-stress Newton iteration of the P_RAJ damage parameter; no longer the Seeger-Beste tables) is counted, not judged",
+        "finding classes are guarded in the oracle: batch-node-order (fixed by /repo commit 64dfe3b, so a failure of this class is reported, not tolerated) only for a batch whose node labels are not ascending; the open classes: mono-P_RAM-early-failure-count only across the early-failure boundary with n1 >= n2 + 2 first/second-pass hystereses and an increase <= n1 - n2 cycles (exactly the complement of the theorems' hypothesis Regime); mono-pa-above-half only for P_A > 0.5 compared with exactly 0.5; mono-P_RAJ-rough / -pa only with fewer than 1000 P_RAJ classes, an increase <= 60 % that vanishes (<= 3 %) when the same pair is re-run with 2000 classes; mono-P_RAJ-scale only when the P_RAJ value of one of the (same) hystereses is smaller in the scaled run (crack closure); mono-P_RAJ-scale-classing like -rough with an increase <= 2 %; anything else of the same relation is reported under another class",
     ]
 
     def __init__(self):
@@ -770,8 +772,8 @@ class C10(Prop):
                 if x:
                     orc = (x[0], self._batch_class(case, x[1], x[2]))
             if suspended:
-                # open finding batch-node-order: the tables of this batch are matched to the wrong points; the batch line is
-                # compared again as soon as the finding is closed in KNOWN_FINDINGS.jsonl
+                # only while the finding batch-node-order is OPEN (tables of this batch matched to the wrong points): the batch
+                # line is left out.  The finding is fixed by 64dfe3b, so `suspended` is False today and the batch line is compared
                 ml, il = [ml[0], ml[2]], [il[0], il[2]]
             return {"ml": ml, "il": il, "st": st, "orc": orc, "susp": suspended}
         except SolverFailure:
@@ -933,7 +935,7 @@ class C10(Prop):
 
     def _batch_class(self, case, klass, info):
         """the finding class of a batch-vs-alone difference: the recorded defect of the unchanged tree (tables matched to the
-        points by position, maxima sorted by node label) is recognised by a decidable guard on the case; everything else keeps
+        points by position, maxima sorted by node label; batch-node-order, fixed by 64dfe3b) is recognised by a decidable guard on the case; everything else keeps
         its own class.  (Loads on class edges - audit C10-5 - need no class any more: since 3047e0d every point is looked up
         in its own table column with its own load, as when it is assessed alone.)"""
         if len(case["cs"]) > 1 and not ids_ascending(case):
